@@ -107,11 +107,14 @@ SerObj(ctx, cls, v) ==
         ELSE IF m.rv.k = "null" /\ ctx.O.exn /\ IsOptType(m.rtype) THEN <<>>
         ELSE << <<Ali(ctx, m.alias), Ser(ctx, m.rtype, m.rv)>> >>
       known == {DStr(fs[i].name) : i \in DOMAIN fs}
+      declared == FlattenSeq([i \in DOMAIN fs |-> entries(fs[i])])
+                  \o FlattenSeq([i \in DOMAIN K.smethods |-> ments(K.smethods[i])])
       extra == IF K.kind = "typeddict" /\ ctx.O.addl
-               THEN SelectSeq(v.o, LAMBDA p : p[1] \notin {DStr(K.fields[i].name) : i \in DOMAIN K.fields})
+               THEN SelectSeq(v.o, LAMBDA p : /\ p[1] \notin {DStr(K.fields[i].name) : i \in DOMAIN K.fields}
+                                                \* a declared key already emitted under this external name wins
+                                                /\ \A j \in DOMAIN declared : declared[j][1] # KeyStr(p[1]))
                ELSE <<>>
-  IN DObj(FlattenSeq([i \in DOMAIN fs |-> entries(fs[i])])
-          \o FlattenSeq([i \in DOMAIN K.smethods |-> ments(K.smethods[i])])
+  IN DObj(declared
           \o [i \in DOMAIN extra |-> <<KeyStr(extra[i][1]), SerAny(ctx, extra[i][2])>>])
 
 Ser(ctx, T, v) ==
